@@ -221,9 +221,12 @@ CHECKS = {
     "C16": dict(
         level="fault_enumeration",
         text="A node with its real replication loop (key-id registration, oplog append, oplog-valid flag, key "
-             "map) runs seeded histories of create-db / first writes of new keys / snapshots of a subset / "
+             "map) runs every history of {first write of a new key, snapshot, kill + restart, clean shutdown + "
+             "restart} up to length 4 (6 in the thorough tier) on a snapshotted database, and seeded histories "
+             "of create-db / first writes of new keys / snapshots of a subset / "
              "clean shutdown / restart over 1-4 databases; after every restart, at the end, and on the "
-             "directory image taken after every file-system call of those paths, a fresh node is started "
+             "directory image taken after every file-system call of those paths, a fresh node is started (on a "
+             "copy, so that the node under test sees the directory as the kill left it) "
              "and every oplog record is decoded through its identifier maps; TLC validates each decode "
              "against Trace_Ids (log discarded, or every record decodes to the database and key it was "
              "written for; database identifiers distinct).",
